@@ -44,8 +44,39 @@ def aliased_check(ctx, comp, cfg, op, x, monitor='aliased-differential'):
             ctx.violation(comp, cfg, 'aliased!=oop', maxdiff=util.maxdiff(y, ref))
     except (NotImplementedError, odl.OpNotImplementedError):
         ctx.skip('in-place not implemented')
+        return
     except Exception as e:
         ctx.violation(comp, cfg, 'raises-aliased:' + type(e).__name__, message=str(e)[:200])
+        return
+    # the way solvers use it: the same operator applied in place to the same element again and again, with nothing in
+    # between (anything the operator remembers about the element object is stale after the first call)
+    ctx.ev('repeated-in-place')
+    try:
+        chain = [ref]
+        for _ in range(2):
+            chain.append(op(chain[-1]))
+        y = x.copy()
+        snaps = []
+        for _ in range(3):
+            op(y, out=y)
+            snaps.append(util.snap(y))
+        for k, (sn, rf) in enumerate(zip(snaps, chain)):
+            if sn != util.snap(rf):
+                z = x.copy()      # value comparison (only after all aliased calls are done)
+                for _ in range(k + 1):
+                    z = op(z)
+                if not util.close(rf, z, 1e-12, 1e-13):
+                    break         # the out-of-place chain itself is not reproducible: not an aliasing question
+                yk = x.copy()
+                for _ in range(k + 1):
+                    op(yk, out=yk)
+                if not util.close(yk, rf, 1e-10, 1e-12):
+                    ctx.violation(comp, cfg, 'aliased!=oop', symptom='repeated in-place application', call=k + 1, maxdiff=util.maxdiff(yk, rf))
+                    break
+    except (NotImplementedError, odl.OpNotImplementedError):
+        pass
+    except Exception as e:
+        ctx.violation(comp, cfg, 'raises-aliased:' + type(e).__name__, message=str(e)[:200], probe='repeated in-place')
 
 
 def factories(sp, rng):
@@ -150,6 +181,63 @@ def run_factories(ctx):
                 continue
             for rep in range(ctx.reps(2, 6)):
                 aliased_check(ctx, comp, cfg, prox, rel(ps, rng))
+
+
+def own_parameter_builders(sp):
+    """(name, build(g) -> proximal operator, needs positive g): proximals that hold a data element g by reference."""
+    base = P.proximal_l2(sp)
+    yield 'proximal_translation(l2)', lambda g: P.proximal_translation(base, g)(0.8), False
+    yield 'proximal_translation(l1)', lambda g: P.proximal_translation(P.proximal_l1(sp), g)(0.8), False
+    yield 'proximal_translation(box)', lambda g: P.proximal_translation(P.proximal_box_constraint(sp, -0.3, 0.5), g)(0.8), False
+    yield 'proximal_l1/g', lambda g: P.proximal_l1(sp, 0.7, g)(0.8), False
+    yield 'proximal_convex_conj_l1/g', lambda g: P.proximal_convex_conj_l1(sp, 0.7, g)(0.8), False
+    yield 'proximal_l2/g', lambda g: P.proximal_l2(sp, 0.7, g)(0.8), False
+    yield 'proximal_convex_conj_l2/g', lambda g: P.proximal_convex_conj_l2(sp, 0.7, g)(0.8), False
+    yield 'proximal_l2_squared/g', lambda g: P.proximal_l2_squared(sp, 0.7, g)(0.8), False
+    yield 'proximal_convex_conj_l2_squared/g', lambda g: P.proximal_convex_conj_l2_squared(sp, 0.7, g)(0.8), False
+    yield 'proximal_convex_conj_kl/g', lambda g: P.proximal_convex_conj_kl(sp, 0.7, g)(0.8), True
+    yield 'proximal_convex_conj_kl_cross_entropy/g', lambda g: P.proximal_convex_conj_kl_cross_entropy(sp, 0.7, g)(0.8), True
+    yield 'proximal_quadratic_perturbation(l2)/u', lambda g: P.proximal_quadratic_perturbation(base, 0.6, g)(0.8), False
+    yield 'proximal_box_constraint/element-lower', lambda g: P.proximal_box_constraint(sp, g, None)(0.8), False
+    yield 'L1Norm.translated.proximal', lambda g: S.L1Norm(sp).translated(g).proximal(0.8), False
+    yield 'L2NormSquared.translated.proximal', lambda g: S.L2NormSquared(sp).translated(g).proximal(0.8), False
+    yield 'L2Norm.translated.convex_conj.proximal', lambda g: S.L2Norm(sp).translated(g).convex_conj.proximal(0.8), False
+    yield 'IndicatorBox.translated.proximal', lambda g: S.IndicatorBox(sp, -0.3, 0.5).translated(g).proximal(0.8), False
+    yield 'KullbackLeibler(prior).proximal', lambda g: S.KullbackLeibler(sp, g).proximal(0.8), True
+    yield 'QuadraticPerturb(L1,linear_term).proximal', lambda g: S.FunctionalQuadraticPerturb(S.L1Norm(sp), 0.4, g).proximal(0.8), False
+    yield 'BregmanDistance(L2NormSquared,point).proximal', lambda g: S.BregmanDistance(S.L2NormSquared(sp), g).proximal(0.8), False
+
+
+def run_own_parameter(ctx):
+    """prox(x, out=x) where x *is* (the same object as) the data element the proximal was built with - a solver started
+    at x = data without a copy.  Reference: the same proximal built from a copy of the data, evaluated out of place at
+    another copy."""
+    rng = ctx.rng('own-parameter')
+    idx = 0
+    for sname, sp in [('rn5', odl.rn(5)), ('discr6', odl.uniform_discr(0, 2, 6)), ('rn5w', odl.rn(5, weighting=2.0)), ('rn150', odl.rn(150))]:
+        for name, build, pos in own_parameter_builders(sp):
+            idx += 1
+            if not ctx.mine(idx):
+                continue
+            comp, _, var = name.partition('/')
+            cfg = '%s;x-is-the-data-element' % util.space_tag(sp)
+            ctx.case('own-parameter;%s;%s' % (name, sname), 0)
+            ctx.ev('own-parameter')
+            g = rel(sp, rng, pos)
+            try:
+                ref = build(g.copy())(g.copy())
+            except Exception:
+                ctx.skip('not constructible / not callable')
+                continue
+            try:
+                op = build(g)
+                op(g, out=g)
+                if not util.close(g, ref, 1e-12, 1e-13):
+                    ctx.violation(comp, cfg, 'aliased!=oop', maxdiff=util.maxdiff(g, ref), name=name)
+            except (NotImplementedError, odl.OpNotImplementedError):
+                ctx.skip('in-place not implemented')
+            except Exception as e:
+                ctx.violation(comp, cfg, 'raises-aliased:' + type(e).__name__, message=str(e)[:200], name=name)
 
 
 def run_functab(ctx):
@@ -268,6 +356,7 @@ def run(ctx):
     cov.arm()
     run_factories(ctx)
     run_functab(ctx)
+    run_own_parameter(ctx)
     if ctx.shard == 0:
         run_blocks(ctx)
         run_solver_sites(ctx)
